@@ -1,0 +1,9 @@
+// Copyright ©2012 The bíogo Authors. All rights reserved.
+// Use of this source code is governed by a BSD-style
+// license that can be found in the LICENSE file.
+
+//go:build !verif
+
+package bgzf
+
+func verifPoint(string, int64, int64) {}
